@@ -180,3 +180,24 @@ Proof. vm_compute. reflexivity. Qed.
 
 Example ex_file_parses : parse_file ex_text = Some ex_file.
 Proof. vm_compute. reflexivity. Qed.
+
+(* ------------------------------------------------------------------ default mode: example
+   (the general round trip in default mode is NOT proved: see notes/C01S.md) *)
+From Verif Require Import Syntax.MiniPos Syntax.MiniPrinterML Proofs.MiniRenderML.
+
+Example ex_file_default_roundtrip :
+  parse_file (ml_print_file 0 false ex_file) = Some ex_file /\
+  parse_file (ml_print_file 4 true ex_file) = Some ex_file.
+Proof. vm_compute. split; reflexivity. Qed.
+
+(* the default layout of the example: 18 lines, bodies indented by their depth *)
+Definition ex_default_text : str :=
+  [40;10;9;40;10;9;9;97;10;9;41;10;41;10;
+   105;102;32;97;59;32;116;104;101;110;10;9;98;10;101;108;105;102;32;99;59;32;116;104;101;110;10;9;100;10;
+   101;108;115;101;10;9;101;10;102;105;10;
+   97;32;38;38;32;98;32;124;124;32;99;32;124;32;100;32;38;10;
+   33;32;123;10;9;97;10;9;123;10;9;9;98;32;38;10;9;125;10;125;32;124;32;
+   119;104;105;108;101;32;120;59;32;100;111;10;9;40;10;9;9;40;10;9;9;9;121;10;9;9;41;32;124;32;122;10;9;41;10;100;111;110;101;10].
+
+Example ex_file_default_prints : ml_print_file 0 false ex_file = ex_default_text.
+Proof. vm_compute. reflexivity. Qed.
